@@ -31,6 +31,9 @@ func (s *Session) Enabled() []Step {
 	return en
 }
 
+// ItemByID returns the item (delivered or not) with the given id.
+func (s *Session) ItemByID(id int) *Item { return s.item(id) }
+
 func (s *Session) item(id int) *Item {
 	for _, it := range s.All {
 		if it.ID == id {
